@@ -118,6 +118,8 @@ def run_history(program, history, solver_kw=None, choices=None, leaves=None, unk
                         o = _obs(program, ev, r)
                     else:
                         raise ValueError(ev)
+                except ctl.ReplayDivergence:
+                    raise  # a choice sequence that does not exist: the explorer's business, not an observation
                 except AssertionError as e:
                     o = {"ev": ev, "kind": "raise", "exc": "AssertionError", "msg": str(e)[:80]}
                 except Exception as e:
